@@ -289,6 +289,18 @@ def run_word(cfg, word):
     return run
 
 
+def cfg_c19_reenter(rnd):
+    """as cfg_c19, batching on, and the application's errback of a cancelled send calls send_messages() re-entrantly
+    (python event "recancel"; for the model: the send event right after the cancel event)"""
+    cfg = cfg_c19(rnd)
+    cfg["batch"] = True
+    cfg["n"] = rnd.choice([2, 3, 3, 4, 6])
+    cfg["b"] = rnd.choice([0, 0, 40, 90])
+    cfg["t"] = rnd.choice([None, None, 5])
+    cfg["reenter"] = rnd.choice([8, 16, 30])
+    return cfg
+
+
 # ------------------------------------------------------------------ driver 2: the real KafkaClient under the producer
 def stop_partial_scenario(seed, acks=1, answered=1):
     """F-C19-4: one batch with a payload for each of two brokers is in flight, `answered` of the two brokers have
@@ -428,6 +440,11 @@ def run(ck):
     # 2. biased towards batching: thresholds on counts and bytes, time limit, metadata ready
     runs = PC.gen_runs(rnd, 900 * scale, hist=ck.hist, cfg_fn=cfg_c19)
     check_runs(ck, runs, "Producer vs Model.Producer.run_case (batching generator)")
+    # 2b. re-entrancy: cancel() of a send whose errback submits a new send from inside the callback
+    runs = PC.gen_runs(rnd, 500 * scale, hist=ck.hist, cfg_fn=cfg_c19_reenter)
+    for r in runs:
+        ck.hist("reentrant_sends_from_a_cancelled_send's_errback", sum(1 for k, e in enumerate(r.events[1:]) if e[0] == 1 and r.events[k][0] == 3 and r.trace[k] and k + 1 in r.send_ev and any(pe[0] == "recancel" for pe in r.pyevents)))
+    check_runs(ck, runs, "Producer vs Model.Producer.run_case (batching generator with re-entrant send_messages() from the errback of a cancelled send)")
     # 3. exhaustive small scope
     depth = 4 if ck.tier == "quick" else 5
     chunk, total = [], 0
